@@ -487,9 +487,22 @@ class Run:
         msg = {'pause': MessageBuilder.pause, 'play': MessageBuilder.play, 'kill': MessageBuilder.kill,
                'status': MessageBuilder.status}.get(intent, lambda text=None: {'intent': intent, 'message': text})(text=pyval(text))
         ident = str(p.pid)
+        # the documented client side: RemoteProcessThreadController builds the message and hands it to the communicator
+        # (intents it has no method for are sent as raw messages)
+        from plumpy.process_comms import RemoteProcessThreadController
+        ctl = RemoteProcessThreadController(self.comm)
         if kind == 'rpc':
             try:
-                fut = self.comm.rpc_send(ident, msg)
+                if intent == 'pause':
+                    fut = ctl.pause_process(ident, pyval(text))
+                elif intent == 'play':
+                    fut = ctl.play_process(ident)
+                elif intent == 'kill':
+                    fut = ctl.kill_process(ident, pyval(text))
+                elif intent == 'status':
+                    fut = ctl.get_status(ident)
+                else:
+                    fut = self.comm.rpc_send(ident, msg)
             except kiwipy.UnroutableError:
                 self.log.append(('rpc', intent, 'unroutable'))
                 self.settle()
@@ -505,7 +518,14 @@ class Run:
                 self.log.append(('rpc', intent, 'scheduled'))
         else:
             subscribed = ident in self.comm._broadcast_subscribers
-            self.comm.broadcast_send(msg, sender='env', subject=intent)
+            if intent == 'pause':
+                ctl.pause_all(pyval(text))
+            elif intent == 'play':
+                ctl.play_all()
+            elif intent == 'kill':
+                ctl.kill_all(pyval(text))
+            else:
+                self.comm.broadcast_send(msg, sender='env', subject=intent)
             if not subscribed:
                 self.log.append(('bcast', intent, 'unroutable'))
             elif intent in ('pause', 'play', 'kill'):
